@@ -6,7 +6,8 @@
 (* anchors.  Search semantics: the pattern matches somewhere in the subject. *)
 EXTENDS Chars
 
-ElMatches(el, c) == el.ch = "ANY" \/ el.ch = c
+(* `.` stands for any character except a line feed (the textbook default of regular expressions) *)
+ElMatches(el, c) == (el.ch = "ANY" /\ c # "\n") \/ el.ch = c
 
 RECURSIVE MatchHere(_, _)
 MatchHere(els, s) ==        \* set of k such that els matches the prefix of length k of s
